@@ -202,7 +202,7 @@ CLAIMED.update({
         engine="Ingest", category="model_checking",
         text=("TLC checks OneRowPerIndividual, VisitsSorted, Aligned, CountsRight, PermutationInvariant (every row permutation) "
               "and RejectsExactlyMalformed of specs/Ingest.tla on every table of <= 3 rows (ages incl. a pair equal after "
-              "rounding and NaN, values incl. NaN / inf, 1-2 features, 8 identifier typings, text columns); TLC enumerates "
+              "rounding and NaN, values incl. NaN / inf, 1-2 features, 10 identifier typings (incl. nullable-integer and categorical columns with a missing identifier), text columns); TLC enumerates "
               "every table of <= 2 rows (3 thorough), each is built as a real DataFrame and ingested (Data.from_dataframe, "
               "Dataset, to_pandas, re-ingestion), and TLC compares the recorded canonical form, exception class, tensor "
               "padding / mask / counters and the untouched input with Canon(table) (IngestTrace.tla), checking that the records "
